@@ -222,6 +222,17 @@ func (v *VerifLGConn) CloseSend(id int64) bool {
 	return true
 }
 
+// StopReading: the application cancels reading a stream it holds (public API CancelRead).
+func (v *VerifLGConn) StopReading(id int64) bool {
+	v.acceptFor(protocol.StreamID(id))
+	s, ok := v.readers[protocol.StreamID(id)].(interface{ CancelRead(StreamErrorCode) })
+	if !ok {
+		return false
+	}
+	s.CancelRead(7)
+	return true
+}
+
 // ReadFrom: the application reads up to n bytes the peer sent on stream id, without blocking; eof: a Read
 // returned io.EOF.
 func (v *VerifLGConn) ReadFrom(id int64, n int) (got int, eof, ok bool) {
